@@ -3,7 +3,9 @@ use crate::runner::{PropCtx, Verdict};
 use serde_json::Value;
 
 pub mod c01;
+pub mod c02;
 pub mod c03;
+pub mod c16;
 
 pub struct Prop {
     pub id: &'static str,
@@ -14,7 +16,9 @@ pub struct Prop {
 
 pub const PROPS: &[Prop] = &[
     Prop { id: "C01", level: "exploration", run: c01::run, replay: c01::replay },
+    Prop { id: "C02", level: "exploration", run: c02::run, replay: c02::replay },
     Prop { id: "C03", level: "exploration", run: c03::run, replay: c03::replay },
+    Prop { id: "C16", level: "fault_enumeration", run: c16::run, replay: c16::replay },
 ];
 
 pub fn find(id: &str) -> Option<&'static Prop> {
